@@ -46,6 +46,8 @@ CTL = Ctl()
 
 class CtlExecutor:
     def __init__(self, max_workers=None, *a, **kw):
+        if max_workers is not None and max_workers <= 0:
+            raise ValueError('max_workers must be greater than 0')      # as concurrent.futures.ThreadPoolExecutor does
         self.pending = []
         CTL.execs.append(self)
 
@@ -144,6 +146,8 @@ def run_impl(case, rng):
         out = {'ok': list(r)}
     except Boom as e:
         out = {'raise': e.args[0]}
+    except Exception as e:  # noqa  (anything else the implementation raises is an outcome to judge, not a harness error)
+        out = {'error': type(e).__name__}
     for t in CTL.threads:
         t.join()
     return out, sorted(calls), [list(p) for p in CTL.used]
